@@ -23,10 +23,10 @@ def PairD.ofBytes : Option Bytes → PairD
 section
 variable (H : Bytes → Bytes)
 
-/-- `hexToKeybytes`: panics on an odd number of nibbles -/
+/-- `hexToKeybytes` behind the length check of GetBlockProof: an odd number of nibbles is ErrInvalidKey -/
 def hexToKeybytes : Bytes → Res Bytes
   | [] => .ok []
-  | [_] => .err .panic
+  | [_] => .err .invalidKey      -- fix 95fe15c: GetBlockProof reports a path of odd length instead of converting it
   | a :: b :: r =>
     match hexToKeybytes r with
     | .ok k => .ok ((a <<< 4 ||| b) :: k)
@@ -242,12 +242,7 @@ def WN.isRouting : WN → Bool
     the source into Verif.Gen.Constants) requested keys is marked by the parallel strategy, everything else sequentially -/
 def getPath (t : WT) (keys : List (List Nib)) : WT × Res Bytes :=
   let r0 : Res WN := match t.root with
-    | .hashRef h _ =>
-      (match t.store.get h with
-        | none => .err .kvNotFound
-        | some data => match Cbor.decBase data with
-          | none => .err .other
-          | some p => deserializeNode p)
+    | .hashRef h _ => resolveHash t.hasDb t.store h     -- fix 527796b: through resolveHashNode ("database is not set")
     | n => .ok n
   match r0 with
   | .err e => (t, .err e)
